@@ -32,6 +32,9 @@ structure Ext where
   sha : Str → Str              -- SHA-256
   nowNs : Int                  -- `time.Now()` in ns since the Unix epoch (one read per call)
   splitHostPortStd : Str → Option (Str × Str)   -- `net.SplitHostPort` (host, port) or error
+  regexMatch : Str → Str → Bool                 -- `regexp.MustCompile(pattern).MatchString(s)`
+  urlParse : Str → Option (Str × Str × Str)     -- `url.Parse`: (Hostname(), Port(), Path) or error
+  urlParseRequestURI : Str → Option (Str × Str × Str)  -- `url.ParseRequestURI`, likewise
 
 /-- `http.Cookie` as far as the translated functions read it -/
 structure Cookie where
@@ -51,6 +54,7 @@ structure Req where
   urlScheme : Str              -- `req.URL.Scheme`
   requestURI : Str             -- `req.URL.RequestURI()`
   scope : Option Scope         -- `middlewareapi.GetRequestScope(req)` (nil when no scope middleware ran)
+  method : Str := []           -- `req.Method`
 
 /-- reading a field through a pointer: nil is a panic -/
 def derefScope (s : Option Scope) : M Scope :=
@@ -62,12 +66,30 @@ def derefScope (s : Option Scope) : M Scope :=
 structure URL where
   hostname : Str
   port : Str
+  path : Str := []
+
+/-- `allowedRoute` of oauthproxy.go; the compiled regex is its pattern -/
+structure Route where
+  method : Str
+  negate : Bool
+  pathRegex : Str
+
+/-- `options.Cookie` as far as the translated functions read it -/
+structure CookieOpts where
+  Name : Str
+  CSRFPerRequest : Bool
 
 /-- `net.SplitHostPort` -/
 def netSplitHostPort (E : Ext) (hp : Str) : Str × Str × Err :=
   match E.splitHostPortStd hp with
   | some (h, p) => (h, p, none)
   | none => ([], [], some "missing port in address".toList)
+
+def urlOf : Option (Str × Str × Str) → URL × Err
+  | some (h, p, pa) => (⟨h, p, pa⟩, none)
+  | none => (⟨[], [], []⟩, some "parse error".toList)
+def urlParse (E : Ext) (s : Str) : URL × Err := urlOf (E.urlParse s)
+def urlParseRequestURI (E : Ext) (s : Str) : URL × Err := urlOf (E.urlParseRequestURI s)
 
 def len {α} (xs : List α) : Int := xs.length
 
@@ -133,6 +155,18 @@ def stringsLastIndexByte (s : Str) (c : Char) : Int :=
   | some i => i
   | none => -1
 
+def indexByte (c : Char) : Str → Option Nat
+  | [] => none
+  | d :: ds => if d = c then some 0 else (indexByte c ds).map (· + 1)
+
+/-- `strings.Index(s, sub)` for a one-byte needle -/
+def stringsIndex (s sub : Str) : Int :=
+  match sub with
+  | [c] => match indexByte c s with
+    | some i => i
+    | none => -1
+  | _ => -1
+
 def stringsLastIndex (s sub : Str) : Int :=
   match sub with
   | [c] => stringsLastIndexByte s c
@@ -183,5 +217,9 @@ def timeUnix (sec : Int) : Int := effSec sec * 1000000000
 /-- `t.Unix()` of a time built by `timeUnix` / of the clock -/
 def timeToUnix (t : Time) : Int := t / 1000000000
 def timeMinute : Int := 60 * 1000000000
+def timeSecond : Int := 1000000000
+/-- `t.Truncate(d)`: rounds down to a multiple of `d` since the zero time (`d ≤ 0` returns `t`) -/
+def timeTruncate (t : Time) (d : Int) : Time :=
+  if d ≤ 0 then t else t - (t - timeZero) % d
 
 end O2P.Go
